@@ -1,34 +1,7 @@
 // shared: the symbol table of table.rs — entry types verbatim, the two HashMap tables as opaque types with an abstract map view,
 // scoping (local before global), `first declaration wins`
 // ---------- symbol table types (table.rs), verbatim; the two HashMap-based tables are opaque to the verifier
-//@extract spl_frontend/src/table.rs :: enum DataType
-//@ rewrite drop_derive
-//@end
-//~assume derived Clone / PartialEq for DataType are structural (R1)
-impl Clone for DataType {
-    #[verifier::external_body]
-    fn clone(&self) -> (r: Self)
-        ensures r == *self,
-    { unimplemented!() }
-}
-//@extract spl_frontend/src/table.rs :: struct TypeEntry
-//@ rewrite drop_derive
-//@end
-//@extract spl_frontend/src/table.rs :: struct ProcedureEntry
-//@ rewrite drop_derive
-//@end
-//@extract spl_frontend/src/table.rs :: struct VariableEntry
-//@ rewrite drop_derive
-//@end
-//@extract spl_frontend/src/table.rs :: enum GlobalEntry
-//@ rewrite drop_derive
-//@end
-//@extract spl_frontend/src/table.rs :: enum LocalEntry
-//@ rewrite drop_derive
-//@end
-//@extract spl_frontend/src/table.rs :: enum Entry
-//@ rewrite drop_derive
-//@end
+//@include inc_symtab_entries.rs
 //@extract spl_frontend/src/table.rs :: struct GlobalTable
 //@ rewrite drop_derive
 //@ attr
@@ -62,23 +35,8 @@ pub open spec fn lookup_spec<'a>(t: LookupTable<'a>, key: Seq<char>) -> Option<E
 //@end
 
 // ---------- the tables as abstract maps: "first declaration wins"
-//@extract spl_frontend/src/error.rs :: struct KeyAlreadyExistsError
-//@ rewrite drop_derive
-//@end
-//@extract spl_frontend/src/table.rs :: trait SymbolTable
-//@ open
-    spec fn content(&self) -> Map<Seq<char>, Self::Value>;
-//@ ret r fn lookup
-//@ sig fn lookup
-        ensures match r { Some(v) => self.content().contains_key(key@) && *v == self.content()[key@], None => !self.content().contains_key(key@) },
-//@ ret r fn enter
-//@ sig fn enter
-        ensures match r {
-            Ok(_) => !old(self).content().contains_key(key@) && final(self).content() == old(self).content().insert(key@, value),
-            Err(_) => old(self).content().contains_key(key@) && final(self).content() == old(self).content(),
-        },
-//@end
-//~assume `impl SymbolTable for GlobalTable / LocalTable` (HashMap::get / HashMap::entry) behave as a map from names to entries in which an occupied key is never overwritten
+//@include inc_symtab_trait.rs
+//~assume in this unit the two tables are opaque (R15) and their `lookup` / `enter` are used through the contract of inc_symtab_trait.rs; that contract is proved for both impls, bodies verbatim, in unit `symtab` (part of every check that uses this include)
 //@extract spl_frontend/src/table.rs :: impl SymbolTable for GlobalTable
 //@ open
     open spec fn content(&self) -> Map<Seq<char>, GlobalEntry> { gmap(*self) }
